@@ -3,7 +3,7 @@ from __future__ import annotations
 
 from .. import ber, policy, rfc4511
 from ..values import Gen, expected_message
-from ..world import Violation, World
+from ..world import Violation, World, exc_info, state_name
 from .base import PropBase, St
 
 P = "C10"
@@ -25,6 +25,12 @@ def id_class(model, mid):
     return "never"
 
 
+def w_copy_pending(sess):
+    """Pending output of a session object, read from a deep copy."""
+    import copy
+    return copy.deepcopy(sess).data_to_send()
+
+
 class C10(PropBase):
     ID = P
     RULE = ("one run = one seeded history on a real server fed by a byzantine client (own encoder), whose application calls "
@@ -41,7 +47,7 @@ class C10(PropBase):
         tuple("%s/%s/B0" % (m, c) for m in FINAL + NONFINAL for c in ("never", "zero"))
     REQUIRED_REACH = ("refused_with_pending", "repeat_final", "client_bind_while_busy", "client_call_while_binding",
                       "client_call_after_close", "done_for_nonsearch_id", "entry_then_probe", "refused_in_BI_keeps_state",
-                      "send_failed_while_encoding")
+                      "send_failed_while_encoding", "giant_id_refused_twice", "giant_id_never_received")
 
     def init_op(self, rng):
         role = "s" if rng.random() < 0.8 else "c"
@@ -70,6 +76,11 @@ class C10(PropBase):
         if x < 0.38 and not (w.init["lazy_drain"] and rng.random() < 0.7):
             n, _ = policy.drain_amount(rng, 10)
             return {"op": "drain", "who": "x", "n": n}
+        if se.role == "s" and model.st != "CL" and rng.random() < 0.012:
+            # message ids beyond any machine word (the id space of the statement is "every candidate message ID"); kept out of
+            # the op itself as a number so that replay files stay small: only the octet count and the fill are recorded
+            return {"op": "giant_id", "octets": rng.choice([600, 1794, 1795, 1800, 2500, 6000]), "fill": rng.choice([0, 0, 1, 255]),
+                    "kind": rng.choice(["ExtendedRequest", "SearchRequest"]), "received": rng.random() < 0.7}
         if se.role == "s":
             need_req = (not model.out and model.st != "CL") or x < 0.55
             if model.st == "B0" and rng.random() < 0.5:
@@ -118,9 +129,62 @@ class C10(PropBase):
 
     # ------------------------------------------------------------------ step + oracle
 
+    def _giant_id(self, st, op):
+        """On a copy of the server: a request whose messageID has thousands of octets is answered and then answered again;
+        or a response is attempted for such an id that was never received.  The refusal must be the library's own error and
+        leave the stream alone, whatever the id looks like."""
+        w = st.w
+        cp = w.clone("x")
+        if state_name(cp) == "CLOSED":
+            return
+        content = b"\x01" + bytes([op["fill"]]) * (op["octets"] - 1)
+        kind = op["kind"]
+        m = "extended_response" if kind == "ExtendedRequest" else "search_result_done"
+        what = "an id of %d content octets" % len(content)
+        if op["received"]:
+            if kind == "ExtendedRequest":
+                body = ber.tlv(ber.APPLICATION, True, 23, ber.octets(b"1.2.3.4.5", ber.CONTEXT, 0))
+            else:
+                body = ber.tlv(ber.APPLICATION, True, 3, ber.octets(b"") + ber.enumerated(0) + ber.enumerated(0) + ber.integer(0)
+                               + ber.integer(0) + ber.boolean(False) + ber.octets(b"objectClass", ber.CONTEXT, 7) + ber.sequence([]))
+            pdu = ber.sequence([ber.tlv(ber.UNIVERSAL, False, 2, content), body])
+            try:
+                got = cp.receive(pdu)
+            except Exception:  # noqa: BLE001 - refusing such an id is fine, and what receive may raise is C05's statement
+                st.hit("giant_id_not_accepted")
+                return
+            if len(got) != 1:
+                return
+            mid = got[0].message_id
+            try:
+                getattr(cp, m)(mid)
+            except Exception:  # noqa: BLE001 - e.g. refused while BINDING
+                return
+        else:
+            mid = int.from_bytes(content, "big")
+        before = bytes(w_copy_pending(cp))
+        try:
+            getattr(cp, m)(mid)
+        except Exception as e:  # noqa: BLE001
+            info = exc_info(e)
+            after = bytes(w_copy_pending(cp))
+            if not info["ldap"]:
+                raise Violation(P, "wrong-exception/%s" % m, "refused %s for %s (%s) raised %s (%s), not an LDAPError" % (
+                    m, what, "already answered" if op["received"] else "never received", info["type"], info["msg"][:120]))
+            if after != before:
+                raise Violation(P, "bytes-after-refusal/%s" % m, "refused %s for %s changed the outgoing stream" % (m, what))
+            st.hit("giant_id_refused_twice" if op["received"] else "giant_id_never_received")
+            return
+        raise Violation(P, "response-to-non-outstanding/%s/%s" % (m, "retired" if op["received"] else "never"),
+                        "server accepted %s for %s which is not outstanding" % (m, what))
+
     def step(self, st, op):
         w = st.w
         k = op["op"]
+        if k == "giant_id":
+            if "x" in w.s and w.s["x"].role == "s":
+                self._giant_id(st, op)
+            return
         if k != "call":
             closed_before = k == "deliver" and op.get("to") in w.s and w.s[op["to"]].model.st == "CL"
             ev = w.apply(op)
